@@ -386,6 +386,8 @@ class Verifier:
         for k, v in env.items():
             if isinstance(v, JVal) and v.oid is not None and not st.cell(v.oid):
                 out[k] = JVal(v.term, None)
+            elif isinstance(v, Obj) and v.oid in st.heap:
+                out[k] = Obj(v.cls, st.alloc(dict(st.fields(v))))      # snapshot of the fields at entry
             else:
                 out[k] = v
         return out
@@ -1279,14 +1281,17 @@ class RecSpec:
         k >  0  =>  f(x, k) = step(x, k-1, f(x, k-1))
     Sound because the definition is well-founded (a conservative extension)."""
 
-    def __init__(self, name, argsorts, ressort, base, step):
+    def __init__(self, name, argsorts, ressort, base, step, lemma=None):
         self.decl = tm.FunDecl(name, list(argsorts) + [INT], ressort)
         self.base, self.step = base, step
+        self.lemma = lemma      # (xs..., k, term) -> fact true of every value (provable by induction on k)
         self._native = True
         self.__name__ = name
 
     def term(self, st, xs, k, depth=1):
         t = self.decl(*xs, k)
+        if self.lemma is not None:
+            st.assume(self.lemma(*xs, k, t))
         st.assume(tm.Implies(tm.Le(k, tm.Int(0)), tm.Eq(t, self.base(*xs))))
         prev_k = tm.Sub(k, tm.Int(1))
         prev = self.decl(*xs, prev_k)
